@@ -358,53 +358,121 @@ def hd1(ctx, R):
 
 @rule("RJ1", "encodings the format forbids are rejected with an error", floor=4)
 def rj1(ctx, R):
+    from .sym import Sym, eval_cond, show, alpha
+    from .sem import calls_to, find, W
+    from .region import region, must_call_nodes, nodes_reaching
     prog = ctx.prog
-    from .rules_resource import _controlling_tests
-    # (a) unseen object with 'matches previous' header
+    # (a) unseen object with 'matches previous' header: a raise guarded by header == RAW_DATA_INDEX_MATCHES_PREVIOUS that is
+    #     reachable for an object that is not among the previous segment objects (helpers of read_segment_objects included)
     fi = prog.func("tdms_segment.TdmsSegment.read_segment_objects")
-    cfg = ctx.cfg(fi)
-    raises = cfg.where(lambda n: n.kind == "raisestmt")
+    mod = fi.module
+    MP = prog.try_fold(ast.Name(id="RAW_DATA_INDEX_MATCHES_PREVIOUS", ctx=ast.Load()), mod, default=None)
+    if MP is None:
+        raise AnchorMissing("tdms_segment: RAW_DATA_INDEX_MATCHES_PREVIOUS")
+    prev_param = ("param", [p for p in fi.params if p != "self"][1])
+
+    def unseen_oracle(c):
+        if isinstance(c, tuple) and len(c) == 4 and c[0] == "cmp" and c[1] == "in" and c[3] == prev_param:
+            return False
+        return None
     ok = False
-    for r in raises:
-        tests = _controlling_tests(cfg, r)
-        for t in tests:
-            txt = unparse(t.ast)
-            if "RAW_DATA_INDEX_MATCHES_PREVIOUS" in txt and "==" in txt:
-                # and it is on the branch for objects never seen before: not under `in previous_segment_objects`
-                under_prev = any("in previous_segment_objects" in unparse(t2.ast) for t2 in tests)
-                if not under_prev:
+    seen_any = False
+    base = prog.cls("base_segment.BaseSegmentObject")
+    ctor_quals = set()
+    for k in prog.subclasses(base) + [base]:
+        found = prog.lookup(k, "__init__")
+        if found and found[0] == "method":
+            ctor_quals.add(found[2].qual)
+    from .region import call_reaches
+    for g in region(ctx, fi, depth=2):
+        sy = Sym(prog, g, g.cls, inline=False)
+        # the branch that handles an object never seen before is the one that creates a new segment object
+        creations = [c for c in walk_body(g.node) if isinstance(c, ast.Call) and call_reaches(ctx, g, c, ctor_quals)]
+        cguards = [set(alpha(x) for x in sy.env_at(c)[1]) for c in creations]
+        for st in walk_body(g.node):
+            if not isinstance(st, ast.Raise):
+                continue
+            _env, guards = sy.env_at(st)
+            if not any(find(x, ("cmp", "==", W(), ("const", MP))) for x in guards):
+                continue
+            seen_any = True
+            if not any(cg <= set(alpha(x) for x in guards) for cg in cguards):
+                continue
+            if g is fi:
+                outer = [()]
+            else:
+                sf = Sym(prog, fi, fi.cls, inline=False)
+                outer = [sf.env_at(c)[1] for c in calls_to(prog, fi, g.qual)]
+            for og in outer:
+                if not any(eval_cond(x, unseen_oracle) is False for x in og):
                     ok = True
     R.check(ok, "tdms_segment.TdmsSegment.read_segment_objects::unseen object with matches-previous header", fi.where(),
             "raises for an object that reuses an index that was never defined",
-            "no raise is control-dependent on `raw_data_index_header == RAW_DATA_INDEX_MATCHES_PREVIOUS` for an object not seen before: "
-            "an index that was never defined would be read as data")
+            ("a raise on `header == RAW_DATA_INDEX_MATCHES_PREVIOUS` exists but only for objects that were seen before" if seen_any else
+             "no raise is guarded by `raw_data_index_header == RAW_DATA_INDEX_MATCHES_PREVIOUS`") + ": an index that was never defined would be read as data")
     # (b) metadata-less first segment
-    fi = prog.func("tdms_segment.TdmsSegment._reuse_previous_segment_metadata")
+    rp = prog.func("tdms_segment.TdmsSegment._reuse_previous_segment_metadata")
+    pp = ("param", [p for p in rp.params if p != "self"][0])
     has = False
-    for n in walk_body(fi.node):
+    for n in walk_body(rp.node):
         if isinstance(n, ast.Try):
             for h in n.handlers:
-                if any(isinstance(x, ast.Raise) for s in h.body for x in ast.walk(s)):
+                if any(isinstance(x, ast.Raise) for s_ in h.body for x in ast.walk(s_)):
                     has = True
-        if isinstance(n, ast.If) and "previous_segment" in unparse(n.test) and any(isinstance(x, ast.Raise) for s in n.body for x in ast.walk(s)):
+
+    def none_oracle(c):
+        if c == ("cmp", "is", pp, ("const", None)):
+            return True
+        if c == pp:
+            return False
+        return None
+    for guards, val, _e in Sym(prog, rp, rp.cls, inline=False).function_paths():
+        if val is not None and val[0] == "raise" and not any(eval_cond(x, none_oracle) is False for x in guards) \
+                and any(eval_cond(x, none_oracle) is True for x in guards):
             has = True
-    R.check(has, "tdms_segment.TdmsSegment._reuse_previous_segment_metadata::no previous segment", fi.where(),
+    R.check(has, "tdms_segment.TdmsSegment._reuse_previous_segment_metadata::no previous segment", rp.where(),
             "raises when a segment without metadata has no predecessor", "a first segment without metadata is not rejected")
-    rso = prog.func("tdms_segment.TdmsSegment.read_segment_objects")
-    calls = [c for c in walk_body(rso.node) if isinstance(c, ast.Call) and call_name(c) == "self._reuse_previous_segment_metadata"]
-    R.check(bool(calls), "tdms_segment.TdmsSegment.read_segment_objects::metadata-less segments reuse previous metadata", rso.where(),
-            "delegates to _reuse_previous_segment_metadata", "metadata-less segments are not routed through _reuse_previous_segment_metadata")
-    # (c) data type change
-    fi = prog.func("reader._update_object_data_type")
     cfg = ctx.cfg(fi)
-    ok = False
-    for r in cfg.where(lambda n: n.kind == "raisestmt"):
-        for t in _controlling_tests(cfg, r):
-            txt = unparse(t.ast)
-            if "data_type is not None" in txt and "!=" in txt:
-                ok = True
-    R.check(ok, "reader._update_object_data_type::type change rejected", fi.where(),
-            "raises when a channel's data type differs from the type seen before", "a channel changing data type is not rejected")
+    R.check(bool(nodes_reaching(ctx, fi, cfg, {rp.qual})), "tdms_segment.TdmsSegment.read_segment_objects::metadata-less segments reuse previous metadata", fi.where(),
+            "delegates to _reuse_previous_segment_metadata", "metadata-less segments are not routed through _reuse_previous_segment_metadata")
+    # (c) data type change: truth table over (a type was stored before?, same type?)
+    ut = prog.func("reader._update_object_data_type")
+    ps = ut.params
+    refs = set()
+    for n in ast.walk(ut.node):
+        if isinstance(n, ast.Attribute) and n.attr == "data_type" and isinstance(n.value, ast.Name) and n.value.id in ps:
+            refs.add(n.value.id)
+    stored_p = None
+    for n in walk_body(ut.node):
+        if isinstance(n, ast.Assign):
+            for t in n.targets:
+                if isinstance(t, ast.Attribute) and t.attr == "data_type" and isinstance(t.value, ast.Name):
+                    stored_p = t.value.id
+    if stored_p is None or len(refs) < 2:
+        raise AnchorMissing("reader._update_object_data_type: stored and new data type")
+    stored = ("attr", ("param", stored_p), "data_type")
+    new = ("attr", ("param", [r for r in sorted(refs) if r != stored_p][0]), "data_type")
+    paths = Sym(prog, ut, None, inline=False).function_paths()
+    table = {}
+    for was_none, same in ((True, False), (False, False), (False, True)):
+        def orc(c, was_none=was_none, same=same):
+            if c == ("cmp", "is", stored, ("const", None)):
+                return was_none
+            if c in (("cmp", "==", stored, new), ("cmp", "==", new, stored)):
+                return same
+            if c in (("cmp", "is", stored, new), ("cmp", "is", new, stored)):
+                return same
+            return None
+        outs = set()
+        for guards, val, _e in paths:
+            if any(eval_cond(x, orc) is False for x in guards):
+                continue
+            outs.add("raise" if val is not None and val[0] == "raise" else "accept")
+        table[(was_none, same)] = outs
+    ok = table[(True, False)] == {"accept"} and table[(False, False)] == {"raise"} and table[(False, True)] == {"accept"}
+    R.check(ok, "reader._update_object_data_type::type change rejected", ut.where(),
+            "raises when a channel's data type differs from the type seen before", "a channel changing data type is not rejected: first type %s, changed type %s, "
+            "same type %s" % (sorted(table[(True, False)]), sorted(table[(False, False)]), sorted(table[(False, True)])))
     um = prog.func("reader.TdmsReader._update_object_metadata")
     cfg = ctx.cfg(um)
     loops = cfg.where(lambda n: n.kind == "for")
@@ -412,7 +480,8 @@ def rj1(ctx, R):
         raise AnchorMissing("reader.TdmsReader._update_object_metadata: loop over the segment's objects")
     loop = loops[0]
     body_start = [m for m, k in loop.succ if k == "loop"]
-    through = lambda n: any(call_name(c) == "_update_object_data_type" for c in node_calls(n))
+    must = set(must_call_nodes(ctx, um, cfg, {ut.qual}))
+    through = lambda n: n in must
     ok = all(cfg.always_passes(b, through, targets={loop, cfg.exit}, follow_exc=False)[0] or through(b) for b in body_start)
     R.check(ok, "reader.TdmsReader._update_object_metadata::type check for every object of every segment", um.where(),
             "every iteration over the segment's objects passes _update_object_data_type",
